@@ -31,9 +31,14 @@ const (
 )
 
 // Switch is one context switch: at global step Step the token went to Task.
+// Replay follows (From, Local): when task From reaches its Local-th own step,
+// the token goes to Task. Task-local positions survive the removal of other
+// tasks' operations, which is what makes schedules shrinkable.
 type Switch struct {
-	Step uint64 `json:"s"`
-	Task int    `json:"t"`
+	Step  uint64 `json:"s"`
+	From  int    `json:"f"`
+	Local uint64 `json:"l"`
+	Task  int    `json:"t"`
 }
 
 // Config of one simulated run.
@@ -56,6 +61,7 @@ type Result struct {
 	Truncated bool     `json:"schedule_truncated,omitempty"`
 	Hang      bool     `json:"hang,omitempty"`     // step cap exceeded
 	Deadlock  bool     `json:"deadlock,omitempty"` // every live task blocked
+	Killed    bool     `json:"killed,omitempty"`   // simulated process death
 	HangTask  int      `json:"hang_task,omitempty"`
 	HangSite  uint32   `json:"hang_site,omitempty"`
 	LogHash   uint64   `json:"log_hash"`
@@ -74,6 +80,7 @@ type Task struct {
 	inOp      bool
 	prio      int
 	lastSite  uint32
+	local     uint64
 	body      func(*Task)
 }
 
@@ -123,7 +130,40 @@ const (
 	wakeDone = iota
 	wakeHang
 	wakeDeadlock
+	wakeKilled
 )
+
+var parked int
+
+// ParkedGoroutines counts task goroutines that were abandoned (hang, deadlock,
+// simulated process death). The race detector supports 8128 live goroutines, so
+// a worker process retires before that.
+//
+//go:norace
+func ParkedGoroutines() int { return parked }
+
+//go:norace
+func countLive() int {
+	n := 0
+	for i := 0; i < ntasks; i++ {
+		if !tasks[i].done {
+			n++
+		}
+	}
+	return n
+}
+
+// Kill is simulated process death: the calling task and every other task stop
+// for ever at their current instruction; no deferred function runs.
+//
+//go:norace
+func Kill() {
+	if !active {
+		panic("verifsim: Kill outside a simulated run")
+	}
+	active = false
+	parkForever(wakeKilled)
+}
 
 // ---- PRNG (splitmix64 / xoshiro256**), self-contained ----
 
@@ -268,18 +308,26 @@ func pickLowest(exclude *Task) *Task {
 	return nil
 }
 
-// explicitNext returns the task the explicit schedule names for the current step, or nil.
+// explicitNext returns the task the explicit schedule names for the current
+// position of task t (nil: keep running).
 //
 //go:norace
-func explicitNext() *Task {
-	for explIdx < len(expl) && expl[explIdx].Step < steps {
+func explicitNext(t *Task) *Task {
+	for explIdx < len(expl) {
+		e := expl[explIdx]
+		if e.From != t.ID {
+			explIdx++ // entry of a task that no longer reaches it (shrunk scenario)
+			continue
+		}
+		if t.local < e.Local && !t.done {
+			return nil
+		}
 		explIdx++
-	}
-	if explIdx < len(expl) && expl[explIdx].Step == steps {
-		id := expl[explIdx].Task
-		explIdx++
-		if id >= 0 && id < ntasks && runnable(tasks[id]) {
-			return tasks[id]
+		if e.Task >= 0 && e.Task < ntasks && runnable(tasks[e.Task]) && tasks[e.Task] != t {
+			return tasks[e.Task]
+		}
+		if t.local == e.Local {
+			return nil
 		}
 	}
 	return nil
@@ -292,7 +340,7 @@ func explicitNext() *Task {
 func decide(t *Task, atOp bool) *Task {
 	switch policy {
 	case polExplicit:
-		if n := explicitNext(); n != nil {
+		if n := explicitNext(t); n != nil {
 			return n
 		}
 		return t
@@ -327,13 +375,17 @@ func decide(t *Task, atOp bool) *Task {
 //go:norace
 func record(next *Task, from *Task, site uint32) {
 	if nrec < maxSched {
-		rec[nrec] = Switch{steps, next.ID}
+		f, l := -1, uint64(0)
+		if from != nil {
+			f, l = from.ID, from.local
+		}
+		rec[nrec] = Switch{steps, f, l, next.ID}
 		nrec++
 	} else {
 		recTrunc = true
 	}
 	logHash = fnv(fnv(fnv(logHash, steps), uint64(next.ID)), uint64(site))
-	if from != nil && from.inOp {
+	if from != nil && from.inOp && !from.done {
 		inOpSw++
 		ilvHash = fnv(fnv(ilvHash, uint64(from.ID)), uint64(site))
 	}
@@ -353,6 +405,7 @@ func handoff(t, next *Task, site uint32) {
 
 //go:norace
 func parkForever(code int) {
+	parked += countLive()
 	raceDisable()
 	mainWake <- code
 	select {}
@@ -370,6 +423,7 @@ func Yield(site uint32) {
 		return
 	}
 	steps++
+	t.local++
 	t.lastSite = site
 	if steps > maxSteps {
 		hangTask, hangSite = t.ID, site
@@ -388,6 +442,7 @@ func Yield(site uint32) {
 func Block(obj uintptr) {
 	t := cur
 	steps++
+	t.local++
 	blockedN++
 	t.blockedOn = obj
 	logHash = fnv(fnv(logHash, 0xb10c), uint64(t.ID))
@@ -398,7 +453,7 @@ func Block(obj uintptr) {
 	case polRandom, polOpBound:
 		next = pickOther(t, &rngSched)
 	case polExplicit:
-		next = explicitNext()
+		next = explicitNext(t)
 		if next == t || next == nil {
 			next = pickLowest(t)
 		}
@@ -452,6 +507,7 @@ func finish(t *Task) {
 	t.done = true
 	t.inOp = false
 	steps++
+	t.local++
 	var next *Task
 	switch policy {
 	case polPCT:
@@ -459,7 +515,7 @@ func finish(t *Task) {
 	case polRandom, polOpBound:
 		next = pickOther(t, &rngSched)
 	case polExplicit:
-		next = explicitNext()
+		next = explicitNext(t)
 		if next == t || next == nil {
 			next = pickLowest(t)
 		}
@@ -467,7 +523,7 @@ func finish(t *Task) {
 		next = pickLowest(t)
 	}
 	if next != nil {
-		record(next, nil, SiteTaskEnd)
+		record(next, t, SiteTaskEnd)
 		cur = next
 		raceDisable()
 		next.wake <- struct{}{}
@@ -479,6 +535,7 @@ func finish(t *Task) {
 		if !tasks[i].done {
 			hangTask, hangSite = tasks[i].ID, SiteBlocked
 			active = false
+			parked += countLive()
 			raceDisable()
 			mainWake <- wakeDeadlock
 			raceEnable()
@@ -614,8 +671,10 @@ func start() int {
 		first = tasks[rngSched.intn(ntasks)]
 	case polExplicit:
 		first = tasks[0]
-		if len(expl) > 0 && expl[0].Step == 0 && expl[0].Task >= 0 && expl[0].Task < ntasks {
-			first = tasks[expl[0].Task]
+		if len(expl) > 0 && expl[0].From == -1 {
+			if expl[0].Task >= 0 && expl[0].Task < ntasks {
+				first = tasks[expl[0].Task]
+			}
 			explIdx = 1
 		}
 	default:
@@ -645,6 +704,8 @@ func collect(code int) Result {
 		r.Hang, r.HangTask, r.HangSite = true, hangTask, hangSite
 	case wakeDeadlock:
 		r.Deadlock, r.HangTask, r.HangSite = true, hangTask, hangSite
+	case wakeKilled:
+		r.Killed = true
 	}
 	return r
 }
